@@ -62,6 +62,7 @@ func main() {
 			fmt.Fprintln(os.Stderr, err)
 			os.Exit(2)
 		}
+		d.IsReplay = replay != ""
 		os.Exit(p.Drive(d, replay))
 	default:
 		fmt.Fprintln(os.Stderr, "unknown mode", os.Args[1])
